@@ -12,9 +12,13 @@ records where the generator put unique docstring tokens and which classes are ti
 """
 from __future__ import annotations
 
+import inspect
 import os
+import re
 
 from .seeds import rng
+
+_TOKEN_RE = re.compile(r"TK[MCFPRXAN][0-9]{4}Z")
 
 FEATURES = [
     "HOMONYMS",
@@ -228,6 +232,13 @@ class PackageGenerator:
             lines.append("")
         while lines and lines[-1] == "":
             lines.pop()
+        dlines = description.split("\n")
+        if len(lines) == len(dlines) and len(dlines) > 1 and all(ln == "" or ln.startswith("    ") for ln in dlines[1:]):
+            # nothing follows a description whose later lines are all indented: by Python's own docstring convention
+            # (inspect.cleandoc) their common indentation is not part of the text, so the expectation is the flattened form
+            for tok in _TOKEN_RE.findall(dlines[0]):
+                if tok in self.tokens.table and self.tokens.table[tok].get("lines") == dlines:
+                    self.tokens.table[tok]["lines"] = inspect.cleandoc(description).split("\n")
         body = f"\n{indent}".join(lines)
         return f'{indent}"""{body}\n{indent}"""'
 
@@ -241,6 +252,9 @@ class PackageGenerator:
                 second = f"\n\nSecond paragraph of {tok}."
             elif x < 0.3:
                 second = f"\ncontinued line of {tok}\n\nThird block of {tok}:\nwith two lines."
+            elif x < 0.42:
+                # every later line is indented (a list, a code block): the indentation is part of the text
+                second = f"\n\n    - first item of {tok}\n        nested under it\n    - second item"
         text = f"Summary {tok}{uni}.{second}"
         self.tokens.table[tok]["lines"] = [ln for ln in text.split("\n")]
         return text
@@ -923,7 +937,9 @@ class PackageGenerator:
             mn.body.append(self.gen_class(mn, "_PairWorker", None, n_methods=1))
             mn.body.append(self.gen_function(mn, "PairWorker", mn.qname))
             mn.all_classes += ["HTTPClient", "HttpClient", "_PairWorker"]
-            for nm in ("data_set", "dataSet", "make_item_x", "makeItemX", "HTTPClient", "HttpClient", "_PairWorker", "PairWorker"):
+            # the ignored-argument idiom: parameters whose names consist of underscores only
+            mn.body.append("def on_pair_event(_, __, value: int = 0, ___: str = '') -> int:\n    return value\n")
+            for nm in ("data_set", "dataSet", "make_item_x", "makeItemX", "HTTPClient", "HttpClient", "_PairWorker", "PairWorker", "on_pair_event"):
                 self.inits[f"{top}.{sub_a}"].append(f"from {mn.qname} import {nm}")
 
         if self.f("TRAILING_UNDERSCORE"):
